@@ -195,6 +195,20 @@ def run(tier, seed):
             pels.append(apel.gen_pel(rng, max_sections=rng.choice([6, 12, 40])))
         if thorough:
             pels.append(apel.gen_pel(rng, max_sections=253))
+        # designed: two sections without decoder whose payloads have the same length and the same CRC-32 (and adler-free: different bytes), in one
+        # log and in two logs decoded one after the other: each entry shows exactly its own bytes
+        twins = set()
+        for n_ in (600, 2048):
+            a_, b_ = apel.crc_twins(rng, n_)
+            p = apel.gen_pel(rng, max_sections=1)
+            p['sections'] += [{'kind': 'other', 'hdr': apel.gen_hdr(rng), 'id': 0x5A5A, 'payload': a_}, {'kind': 'ud', 'hdr': dict(apel.gen_hdr(rng), comp=0x7777, sub=9), 'payload': b_},
+                              {'kind': 'other', 'hdr': apel.gen_hdr(rng), 'id': 0x5A5A, 'payload': b_}]
+            apel.fix_real_plugins(p)
+            pels.append(p)
+            for x_ in (a_, b_):
+                q = apel.gen_pel(rng, max_sections=0)
+                q['sections'] = [{'kind': 'ud', 'hdr': dict(apel.gen_hdr(rng), comp=0x7777, sub=9), 'payload': x_}]
+                pels.append(q)
         # designed: a log file larger than 16 / 64 KiB (one large section in the middle), always taken through the command-line routes
         bigs = set()
         for size in (20000, 60000):
